@@ -29,8 +29,19 @@ func main() {
 	// shared read-only arguments, built without touching the base tables
 	e, _ := new(edwards25519.Point).SetBytes(edwards25519.NewGeneratorPoint().Bytes())
 	shared := new(edwards25519.Point).Add(e, e)
+	// per-goroutine points (distinct values), also built without the base tables
+	own := make([]*edwards25519.Point, 16)
+	cur := new(edwards25519.Point).Set(shared)
+	for i := range own {
+		cur = new(edwards25519.Point).Add(cur, e)
+		own[i] = cur
+	}
 	work := func(i int) []byte {
 		var out []byte
+		mine := own[i%len(own)]
+		out = append(out, new(edwards25519.Point).VarTimeDoubleScalarBaseMult(k[i%3], mine, k[(i+1)%3]).Bytes()...)
+		out = append(out, new(edwards25519.Point).ScalarMult(k[i%3], mine).Bytes()...)
+		out = append(out, new(edwards25519.Point).VarTimeMultiScalarMult([]*edwards25519.Scalar{k[0], k[1]}, []*edwards25519.Point{mine, shared}).Bytes()...)
 		switch (i + seed) % 3 {
 		case 0:
 			out = append(out, new(edwards25519.Point).ScalarBaseMult(k[i%3]).Bytes()...)
